@@ -514,6 +514,11 @@ CATALOGUE['C14'] += [
   (F, 'R-PARTIALRAISE', 'camxfiles/one3d/Memmap.py', "        if self.__records % lays != 0:\n            raise ValueError('Incomplete time step: %d records of %d layers'\n                             % (self.__records, lays))\n", ""),
 ]
 
+CATALOGUE['C08'] += [
+  (F, 'R-LUORDER', 'camxfiles/landuse/Write.py', "['FLAND', 'LUCAT11', 'LUCAT26', 'VAR1', 'LAI', 'TOPO']", "['FLAND', 'VAR1', 'LAI', 'TOPO', 'LUCAT11', 'LUCAT26']"),
+  (S, None, 'camxfiles/landuse/Write.py', "['FLAND', 'LUCAT11', 'LUCAT26', 'VAR1', 'LAI', 'TOPO']", "['LUCAT26', 'LUCAT11', 'FLAND', 'VAR1', 'LAI', 'TOPO']"),
+]
+
 def _findings(prop, overlay):
     warnings.simplefilter('ignore')
     mod = importlib.import_module('pncstatic.rules.%s' % prop.lower())
